@@ -74,6 +74,35 @@ Example C02_shift_example :
   = map Qcz [3; 4; 5; 6; 7; 8; 0; 0].
 Proof. vm_compute. reflexivity. Qed.
 
+(** ** the whole-shift theorem about the GENERATED body of KickMap::updateSM (family usm; Gen/Gen_UpdateSM.v is regenerated
+    from src/SM/KickMap.cpp on every run, see Properties_C01 and Proofs/UpdateSMGenP.v): the entries the source's own loop
+    body writes for an integer offset - size halved by integer division, binary32 sum, std::modf, guard, conversion,
+    source index [jd + j1 - (it-1)/2] in unsigned arithmetic, range test, fallback (n/2, 0) - move every row by exactly
+    [m] cells.  A changed centre, halving ([n/2.0f]: odd sizes), guard, bound or fallback breaks this theorem. *)
+From Inovesa Require Import Model.UsmOps Gen.Gen_UpdateSM Proofs.UpdateSMGenP.
+
+Theorem C02_whole_shift_exact_generated :
+  forall n it m (r : Z -> Qc) y,
+    valid_it it -> 0 < n <= 4096 -> 0 <= n / 2 + m < n -> 0 <= y < n ->
+    row_out n it (usm_entry n it (Qcz m)) r y =
+    if ((0 <=? y + m) && (y + m <? n))%bool then r (y + m) else 0%Qc.
+Proof. exact gen_whole_shift_exact. Qed.
+Print Assumptions C02_whole_shift_exact_generated.
+
+(** the generated entry function is the kick model for every offset, fractional ones included (so that the
+    polynomial-reproduction statements, which are about the generated weights, meet the generated origin) *)
+Theorem C02_updateSM_generated_is_model :
+  forall n it o j1,
+    valid_it it -> 0 < n < 2 ^ 24 -> 0 <= j1 < it -> usm_entry n it o j1 = sm_entry n it o j1.
+Proof. exact usm_entry_model. Qed.
+Print Assumptions C02_updateSM_generated_is_model.
+
+(** non-vacuity: the generated code on an odd grid (n = 7: n/2 = 3 by integer division), shift by two cells *)
+Example C02_shift_generated_example :
+  map (row_out 7 4 (usm_entry 7 4 (Qcz 2)) (fun i => Qcz (i + 1))) (zrange 7)
+  = map Qcz [3; 4; 5; 6; 7; 0; 0].
+Proof. vm_compute. reflexivity. Qed.
+
 (** ** "to rounding": the rounding envelope of the weights, proved (family [round]).
 
     Standard model of binary32 derived from Flocq (Proofs/RoundingP.v), typed expression trees of
